@@ -102,8 +102,8 @@ func (bo *BlockOperations) CreateProposalBlock(
 	// so statedb of proposal node already contains the new state and txs receipts of this proposal block.
 	//maxBytes := lastState.ConsensusParams.Block.MaxBytes
 	// Fetch a limited amount of valid evidence
-	maxNumEvidence, _ := types.MaxEvidencePerBlock(lastState.ConsensusParams.Evidence.MaxBytes)
-	evidence, _ := bo.evPool.PendingEvidence(maxNumEvidence)
+	_, maxEvidenceBytes := types.MaxEvidencePerBlock(lastState.ConsensusParams.Evidence.MaxBytes)
+	evidence, _ := bo.evPool.PendingEvidence(maxEvidenceBytes)
 
 	// Set time.
 	var timestamp time.Time
